@@ -5,7 +5,7 @@ open Lean PonyVerif.Drive PonyVerif.Model.ConnLock
 
 /-
   request  {"op":"run", "init":{"n":k,"nextCon":c,"poolPid":b,"closed":[..]},
-            "sessions":[{"immediate":b,"ddl":b,"reconnect":b,["initGuard":b,]"bodyRaises":b,"faults":[global call indices that raise],
+            "sessions":[{"immediate":b,"ddl":b,"reconnect":b,["initGuard":b,"onConnect":n,"disconnect":b (db.disconnect() instead of a session),]"bodyRaises":b,"faults":[global call indices that raise],
                          "prog":[["query",caught] | ["write",many,caught] | ["modify",[many..],caught] | ["flush",caught]
                                  | ["commit",caught] | ["rollback",caught] | ["getConnection",caught]]}]}
   reply    {"sessions":[{"outcome":"ok"|exception kind, "events":[...], "state":{...}}]}
@@ -89,16 +89,28 @@ def handle (j : Json) : Except String Json := do
         let faults ← natsOfJson (← sj.getObjVal? "faults")
         let cf : Cfg := { fails := fun i => faults.contains i, immediate := ← argBool sj "immediate", ddl := ← argBool sj "ddl",
                           reconnect := ← argBool sj "reconnect",
-                          initGuard := (sj.getObjValAs? Bool "initGuard").toOption.getD false }
+                          initGuard := (sj.getObjValAs? Bool "initGuard").toOption.getD false,
+                          onConnect := (sj.getObjValAs? Nat "onConnect").toOption.getD 0 }
         let prog ← (← argArr sj "prog").mapM opOfJson
         let br ← argBool sj "bodyRaises"
         let before := s.trace.length
-        let (r, s') := dbSession cf prog br s
+        let isDisc := (sj.getObjValAs? Bool "disconnect").toOption.getD false
+        let (r, s') := if isDisc then dbDisconnect cf s else dbSession cf prog br s
         let evs := (s'.trace.take (s'.trace.length - before)).reverse
         let outcome := match r with | .ok _ => "ok" | .error e => excName e
         outs := outs.push (Json.mkObj [("outcome", .str outcome), ("events", .arr (evs.map jsonOfEv).toArray), ("state", jsonOfSt s')])
         s := s'
       pure (Json.mkObj [("sessions", .arr outs)])
+  | "pool_api" =>
+      -- Pool.release / Pool.drop called with connection `con` while pool.con = `poolCon` (the contract `assert con is pool.con`)
+      let call ← argStr j "call"
+      let con ← argNat j "con"
+      let pc := (j.getObjValAs? Nat "poolCon").toOption
+      let s0 : St := { St.init with poolCon := pc, poolPid := true, nextCon := 10 }
+      let cf : Cfg := { fails := fun _ => false, immediate := false, ddl := false, reconnect := false }
+      let (r, s') := if call == "release" then poolRelease cf con s0 else poolDrop cf con s0
+      let outcome := match r with | .ok _ => "ok" | .error e => excName e
+      pure (Json.mkObj [("outcome", .str outcome), ("poolCon", jOptNat s'.poolCon), ("closed", jNats s'.closed.reverse)])
   | "schedule" =>
       let ths ← (← argArr j "threads").mapM (fun t => do
         match t with
